@@ -18,7 +18,8 @@ def run(cmd, cwd, timeout=1800):
 def main():
     pid, x = sys.argv[1], sys.argv[2]
     checks = sys.argv[3:] or [pid]
-    wt = "/tmp/seed/%s" % pid
+    base = os.environ.get("SEED_BASE", "/tmp/seed")
+    wt = "%s/%s" % (base, pid)
     out = os.path.join(wt, "OUT")
     patch = os.path.join(out, "patch%s.diff" % x)
     demo = os.path.join(out, "demo%s_test.go" % x)
@@ -95,7 +96,7 @@ def main():
     return finish(pid, x, res, patch, demo)
 
 def finish(pid, x, res, patch, demo):
-    d = "/verif/seeded/%s-%s" % (pid, x)
+    d = "/verif/seeded/%s-%s%s" % (pid, os.environ.get("SEED_TAG", ""), x)
     os.makedirs(d, exist_ok=True)
     shutil.copy(patch, os.path.join(d, "patch.diff"))
     shutil.copy(demo, os.path.join(d, "demo_test.go.txt"))
